@@ -120,6 +120,12 @@ def obj_op(cat, unit, obj, calls, default=False):
     return dict(k="obj", cat=cat, unit=unit, obj=obj, calls=list(calls), default=default)
 
 
+def copy_op(cat, unit, obj, calls, cunit, ccat, ccalls, fixed=False):
+    """Array(cat, values, unit); <calls>; copy = CreateCopy(unit=cunit, category=ccat); <ccalls on the copy>"""
+    return dict(k="copy", cat=cat, unit=unit, obj=obj, calls=list(calls), cunit=cunit, ccat=ccat,
+                ccalls=list(ccalls), fixed=fixed)
+
+
 def o_scalar(v):
     return dict(t="scalar", v=T(v))
 
@@ -166,6 +172,9 @@ def _enc(op):
                 "min": None if op["min"] is None else qstr(exact(U(op["min"]))),
                 "max": None if op["max"] is None else qstr(exact(U(op["max"]))),
                 "minx": op["minx"], "maxx": op["maxx"], "from": S(op["frm"])}
+    if op["k"] == "copy":
+        return {"k": "copy", "cat": S(op["cat"]), "unit": S(op["unit"]), "obj": _enc_obj(op["obj"]),
+                "calls": op["calls"], "cunit": S(op["cunit"]), "ccat": S(op["ccat"]), "ccalls": op["ccalls"]}
     return {"k": "obj", "cat": S(op["cat"]), "unit": S(op["unit"]), "default": op["default"],
             "obj": _enc_obj(op["obj"]), "calls": op["calls"]}
 
@@ -370,12 +379,116 @@ def _shadow_histories(ctx, salt, n):
         yield history(ops)
 
 
+def _copy_histories(ctx, salt, n):
+    """validate (or not), CreateCopy into another category / unit of the same quantity type, validate the copy"""
+    rng = ctx.fresh_rng("C12copy" + salt)
+    for i in range(n):
+        qt = rng.choice(QTYPES_QUICK)
+        us = ctx.units[qt]
+        du = rng.choice(us[:8])
+        lo, hi = _limits(rng, qt, du)
+        if hi <= lo:
+            hi = lo + 10.0
+        span = hi - lo
+        ops = [add_op("wide", qt, du=du, dv=lo, mn=lo - 50 * span, mx=hi + 50 * span),
+               add_op("narrow", qt, du=rng.choice([du, rng.choice(us[:8])]), dv=(lo + hi) / 2, mn=lo, mx=hi,
+                      minx=rng.random() < 0.3, maxx=rng.random() < 0.3),
+               add_op("free", qt, du=du),
+               add_op("other type", rng.choice([t for t in QTYPES_QUICK if t != qt]), mn=0.0)]
+        cats = ["wide", "narrow", "free"]
+        for _ in range(rng.randint(4, 8)):
+            a_cat = rng.choice(cats)
+            u = rng.choice([du] + rng.sample(us, 2))
+            inside = [_conv(ctx, qt, du, u, lo + span * rng.uniform(0.1, 0.9)) for _ in range(rng.randint(2, 4))]
+            outside = _conv(ctx, qt, du, u, rng.choice([lo - span * rng.uniform(2, 20), hi + span * rng.uniform(2, 20)]))
+            far = _conv(ctx, qt, du, u, hi + 500 * span)
+            vs = list(inside)
+            r = rng.random()
+            if r < 0.5:
+                vs.append(outside)      # valid in `wide`, invalid in `narrow`
+            elif r < 0.6:
+                vs.append(far)          # invalid in both limited categories
+            if rng.random() < 0.3:
+                vs.append(rng.choice([math.nan, math.inf, -math.inf]))
+            rng.shuffle(vs)
+            vs = [float(v) for v in vs]
+            calls = rng.choice([[], [], ["i"], ["c"], ["i", "c"], ["c", "c", "i"]])
+            ccalls = rng.choice([["i", "c"], ["c", "i"], ["i"], ["c", "c"]])
+            r = rng.random()
+            if r < 0.7:
+                ccat = rng.choice([c for c in cats if c != a_cat])
+                cunit = rng.choice([u] + rng.sample(us, 2))
+            elif r < 0.8:
+                ccat, cunit = None, rng.choice([u] + rng.sample(us, 2))
+            elif r < 0.86:
+                ccat, cunit = None, None
+            elif r < 0.9:
+                ccat, cunit = rng.choice(cats), None       # category without unit: TypeError
+            elif r < 0.95:
+                ccat, cunit = rng.choice(cats), rng.choice(["nope", rng.choice(ctx.units[rng.choice(ctx.types)])])
+            else:
+                ccat, cunit = rng.choice(["other type", "missing"]), rng.choice(us)
+            shape = rng.random()
+            if shape < 0.7:
+                kind = rng.choice(CONTAINERS)
+                fixed = len(vs) >= 2 and rng.random() < 0.3
+                ops.append(copy_op(a_cat, u, o_flat(kind, vs), calls, cunit, ccat, ccalls, fixed=fixed))
+            else:
+                k = max(1, len(vs) // 2)
+                rest = [vs[k:]] + ([rng.choice(vs)] if rng.random() < 0.15 else [])
+                ops.append(copy_op(a_cat, u, o_nested(rng.choice(["list", "tuple"]), vs[:k], rest), calls, cunit, ccat, ccalls))
+        yield history(ops)
+
+
+def _from_histories(ctx, salt, n):
+    """from_category with an overriding argument that is falsy in Python (0, 0.0, []), then objects just inside and
+    outside the requested limit"""
+    rng = ctx.fresh_rng("C12from" + salt)
+    for i in range(n):
+        qt = rng.choice(QTYPES_QUICK)
+        us = ctx.units[qt]
+        du = rng.choice(us[:6])
+        plo, phi = rng.choice([(-10.0, 10.0), (-100.0, 50.0), (-5.0, None), (None, 7.5), (-10, 10)])
+        pdv = 0.0 if (plo is None or plo <= 0) and (phi is None or phi >= 0) else (plo if plo is not None else phi)
+        ops = [add_op("parent", qt, du=du, dv=pdv, mn=plo, mx=phi, valid=rng.choice([None, us[:4] + [du]]))]
+        zero = rng.choice([0, 0.0, -0.0])
+        side = rng.choice(["min", "max", "both", "valid", "dv"])
+        kw = dict(frm="parent")
+        if side in ("min", "both"):
+            kw["mn"] = zero
+        if side in ("max", "both"):
+            kw["mx"] = zero
+        if side == "valid":
+            kw["valid"] = []
+            kw["mn"] = rng.choice([None, zero])
+        if side == "dv":
+            kw["mn"] = zero
+            kw["dv"] = rng.choice([-5.0, -1e-9, 5.0]) if plo is None or plo < 0 else 0.0
+        if rng.random() < 0.3 and "dv" not in kw:
+            kw["dv"] = rng.choice([0.0, 0])
+        if rng.random() < 0.2:
+            kw["du"] = rng.choice(us[:6])
+        ops.append(add_op("child", **kw))
+        ops.append(obj_op("child", None, o_scalar(0.0), ["c", "i"], default=True))
+        cdu = kw.get("du") or du
+        for u in [cdu] + rng.sample(us, 2):
+            for y in (-5.0, 5.0, 0.0, -1e-3, 1e-3, rng.uniform(-9, 9)):
+                x = y if u == cdu else _conv(ctx, qt, cdu, u, y)
+                ops.append(obj_op("child", u, o_scalar(x), rng.choice([["i"], ["c"], ["i", "c"]])))
+            xs = [(-5.0 if u == cdu else _conv(ctx, qt, cdu, u, -5.0)), (5.0 if u == cdu else _conv(ctx, qt, cdu, u, 5.0))]
+            ops.append(obj_op("child", u, o_flat(rng.choice(CONTAINERS), xs + [math.nan]), ["c", "i"]))
+            ops.append(obj_op("parent", u, o_scalar(xs[0]), ["i", "c"]))
+        yield history(ops)
+
+
 def cases(ctx):
     if ctx.tier == "quick":
         rng = ctx.fresh_rng("C12types")
         yield from _config_histories(ctx, "q", QTYPES_QUICK + rng.sample(ctx.types, 3), 4, False)
         yield from _registration_histories(ctx, "q", 400)
         yield from _shadow_histories(ctx, "q", 6)
+        yield from _copy_histories(ctx, "q", 40)
+        yield from _from_histories(ctx, "q", 40)
     else:
         rng = ctx.fresh_rng("C12types")
         extra = rng.sample(ctx.types, 12)
@@ -383,6 +496,8 @@ def cases(ctx):
         yield from _config_histories(ctx, "t2", QTYPES_QUICK, 4, True)
         yield from _registration_histories(ctx, "t", 2000)
         yield from _shadow_histories(ctx, "t", 40)
+        yield from _copy_histories(ctx, "t", 400)
+        yield from _from_histories(ctx, "t", 300)
 
 
 def model_line(c):
@@ -494,6 +609,8 @@ def _run_op(db, op):
                             min=None if info.min_value is None else _num(info.min_value),
                             max=None if info.max_value is None else _num(info.max_value),
                             minx=bool(info.is_min_exclusive), maxx=bool(info.is_max_exclusive)))
+    if op["k"] == "copy":
+        return _run_copy(op)
     try:
         obj = _build(op)
     except Exception as e:
@@ -523,6 +640,61 @@ def _run_op(db, op):
     return dict(ok=res)
 
 
+def _flatten(values):
+    """the numbers of an Array's values, tuple by tuple for a container whose first element is a tuple"""
+    vs = list(values)
+    if vs and isinstance(vs[0], tuple):
+        out = []
+        for t in vs:
+            if isinstance(t, tuple):
+                out += list(t)
+        return [float(x) for x in out]
+    return [float(x) for x in vs]
+
+
+def _conv_real(obj, els):
+    """the real conversion of the given numbers (written in the object's unit) to the default unit"""
+    conv = []
+    try:
+        q = obj.GetQuantity()
+        du = q.GetCategoryInfo().default_unit
+        for x in els:
+            try:
+                conv.append(_num(x if q.GetUnit() == du else q.ConvertScalarValue(x, du)))
+            except Exception as e:
+                conv.append("err:" + err_kind(e))
+    except Exception:
+        return None
+    return conv
+
+
+def _build_source(op):
+    from barril.units import Array, FixedArray
+
+    o = op["obj"]
+    if op.get("fixed") and o["t"] == "flat":
+        return FixedArray(len(o["vs"]), op["cat"], _mk_values(o), op["unit"])
+    return Array(op["cat"], _mk_values(o), op["unit"])
+
+
+def _run_copy(op):
+    try:
+        src = _build_source(op)
+    except Exception as e:
+        return dict(err=err_kind(e))
+    res = dict(unit=src.GetUnit(), outs=_run_calls(src, op["calls"]), conv=_conv_real(src, _elements(op["obj"])))
+    try:
+        cp = src.CreateCopy(unit=op["cunit"], category=op["ccat"])
+    except Exception as e:
+        return dict(ok=dict(src=res, copy=dict(err=err_kind(e))))
+    out = dict(unit=cp.GetUnit(), cat=cp.GetCategory(), kind=type(cp).__name__, outs=_run_calls(cp, op["ccalls"]))
+    try:
+        out["conv"] = _conv_real(cp, _flatten(cp.GetValues()))
+    except Exception:
+        out["conv"] = None
+    return dict(ok=dict(src=res, copy=dict(ok=out)))
+
+
 def _run_history(ops):
     from barril.units.unit_database import UnitDatabase
 
@@ -543,6 +715,11 @@ def impl(c, ctx):
             key = "add/" + (o["err"] if "err" in o else "ok") + ("/from" if op["frm"] else "")
         elif "err" in o:
             key = "obj/create-" + o["err"]
+        elif op["k"] == "copy":
+            cpo = o["ok"]["copy"]
+            key = "copy/" + ("err-" + cpo["err"] if "err" in cpo else
+                             ("validated-first" if op["calls"] else "not-validated-first") +
+                             ("/other-category" if op["ccat"] and op["ccat"] != op["cat"] else "/same-category"))
         else:
             key = "obj/" + ("default" if op["default"] else op["obj"]["t"])
             for call, r in zip(op["calls"], o["ok"]["outs"]):
@@ -589,17 +766,13 @@ def _tie(op, a, b):
     return False
 
 
-def _agree_obj(op, io, mo, cats, ctx):
-    if ("err" in io) != ("err" in mo):
-        return "creation: one side fails: impl=%s model=%s" % (io, mo)
-    if "err" in io:
-        return None if io["err"] == mo["err"] else "creation error kinds differ: impl=%s model=%s" % (io["err"], mo["err"])
-    a, b = io["ok"], dict(mo["ok"])
-    derived = op["obj"]["t"] in ("dscalar", "dflat")
+def _agree_payload(a, b, ci, ctx, derived=False, default=False):
+    """one built object: unit, converted amounts, answers of the calls"""
+    b = dict(b)
     if not derived and a["unit"] != unsym(int(b["unit"])):
         return "unit differs: impl=%s model=%s" % (a["unit"], unsym(int(b["unit"])))
     M = qparse(b["M"])
-    if op["default"] and not _same_val(a.get("value", "?"), b["value"], abs(qparse(b["value"])) if "/" in b["value"] else 0):
+    if default and not _same_val(a.get("value", "?"), b["value"], abs(qparse(b["value"])) if "/" in b["value"] else 0):
         return "default value differs: impl=%s model=%s" % (a.get("value"), b["value"])
     if not derived and a["conv"] is not None:
         if len(a["conv"]) != len(b["conv"]):
@@ -612,10 +785,9 @@ def _agree_obj(op, io, mo, cats, ctx):
                 return "conversion: impl=%s model=%s" % (r, m)
             elif not _same_val(r, m, M):
                 return "converted amount differs: impl=%s model=%s" % (U(r) if r != "?" else r, m)
-    ci = cats.get(op["cat"])
     if ci:
         b["_limits"] = [qparse(x) for x in (ci["min"], ci["max"]) if x is not None]
-    if _tie(op, a, b):
+    if _tie(None, a, b):
         ctx.notes["near_ties_skipped"] = ctx.notes.get("near_ties_skipped", 0) + 1
         return None
     ctx.notes["objects_compared_strictly"] = ctx.notes.get("objects_compared_strictly", 0) + 1
@@ -638,6 +810,26 @@ def _agree_obj(op, io, mo, cats, ctx):
         elif x.get("ok") != y.get("ok"):
             return "call %d: verdict impl=%s model=%s" % (i, x.get("ok"), y.get("ok"))
     return None
+
+
+def _agree_obj(op, io, mo, cats, ctx):
+    if ("err" in io) != ("err" in mo):
+        return "creation: one side fails: impl=%s model=%s" % (io, mo)
+    if "err" in io:
+        return None if io["err"] == mo["err"] else "creation error kinds differ: impl=%s model=%s" % (io["err"], mo["err"])
+    if op["k"] == "copy":
+        why = _agree_payload(io["ok"]["src"], mo["ok"]["src"], cats.get(op["cat"]), ctx)
+        if why:
+            return "source: " + why
+        a, b = io["ok"]["copy"], mo["ok"]["copy"]
+        if ("err" in a) != ("err" in b):
+            return "copy: one side fails: impl=%s model=%s" % (a, b)
+        if "err" in a:
+            return None if a["err"] == b["err"] else "copy: error kinds differ: impl=%s model=%s" % (a["err"], b["err"])
+        why = _agree_payload(a["ok"], b["ok"], cats.get(op["ccat"] or op["cat"]), ctx)
+        return ("copy: " + why) if why else None
+    return _agree_payload(io["ok"], mo["ok"], cats.get(op["cat"]), ctx,
+                          derived=op["obj"]["t"] in ("dscalar", "dflat"), default=op["default"])
 
 
 def _agree_add(op, io, mo):
@@ -720,26 +912,28 @@ def _amount(db, info, unit, x):
     return db.Convert(info.quantity_type, unit, info.default_unit, x)
 
 
-def _oracle_obj(db, op, obj):
+class _Lim:
+    """the limits an object has to be judged by: those REQUESTED when its category was registered (an argument
+    that was given wins over from_category, whatever its value), else those the registry reports"""
+
+    def __init__(self, info, want):
+        self.quantity_type = info.quantity_type
+        self.default_unit = info.default_unit
+        if want is None:
+            want = dict(min=info.min_value, max=info.max_value, minx=info.is_min_exclusive, maxx=info.is_max_exclusive)
+        self.min_value, self.max_value = want["min"], want["max"]
+        self.is_min_exclusive, self.is_max_exclusive = bool(want["minx"]), bool(want["maxx"])
+
+
+def _judge(db, obj, els, skip_nan, want, show):
+    """accepted exactly when every amount, converted to the default unit, satisfies the limits; a rejection
+    reports a violated limit of the object's own category"""
     from barril.units.exceptions import QuantityValidationError
 
-    o = op["obj"]
     q = obj.GetQuantity()
-    if q.IsDerived():
-        if obj.IsValid() is not True:
-            return dict(clause="a derived quantity has no limits", got=obj.IsValid())
-        return None
-    info = q.GetCategoryInfo()
+    info = _Lim(q.GetCategoryInfo(), want)
     unit = q.GetUnit()
     limited = info.min_value is not None or info.max_value is not None
-    if op["default"]:
-        els, skip_nan = [obj.GetValue()], False
-    elif o["t"] == "nested":
-        if any("n" in r for r in o["rest"]):
-            return None  # a list mixing tuples and plain numbers is not a well-formed Array
-        els, skip_nan = _elements(o), False
-    else:
-        els, skip_nan = _elements(o), o["t"] == "flat"
     expected = True
     amounts = []
     for x in els:
@@ -754,7 +948,7 @@ def _oracle_obj(db, op, obj):
         amounts.append(y)
         if not _sat(info, y):
             expected = False
-    show = dict(category=op["cat"], unit=unit, object=o, default_unit=info.default_unit,
+    show = dict(show, category=obj.GetCategory(), unit=unit, default_unit=info.default_unit,
                 limits=[info.min_value, info.is_min_exclusive, info.max_value, info.is_max_exclusive])
     verdicts = []
     for _ in range(2):
@@ -768,7 +962,7 @@ def _oracle_obj(db, op, obj):
                       "<": (info.max_value, info.is_max_exclusive), "<=": (info.max_value, not info.is_max_exclusive)}
             lim, flag = ops_ok.get(e.operator, (None, False))
             if lim is None or not flag or e.limit_value != lim:
-                return dict(clause="a rejection reports a limit and operator of the category", reported=[e.operator, e.limit_value], **show)
+                return dict(clause="a rejection reports a limit and operator of the object's category", reported=[e.operator, e.limit_value], **show)
             v = e.value
             holds = {">": v > lim, ">=": v >= lim, "<": v < lim, "<=": v <= lim}[e.operator]
             if holds and not _near(info, v):
@@ -785,19 +979,87 @@ def _oracle_obj(db, op, obj):
     return None
 
 
-def _oracle_add(db, op, info):
+def _oracle_obj(db, op, obj, wants):
+    o = op["obj"]
+    q = obj.GetQuantity()
+    if q.IsDerived():
+        if obj.IsValid() is not True:
+            return dict(clause="a derived quantity has no limits", got=obj.IsValid())
+        return None
+    if op["default"]:
+        els, skip_nan = [obj.GetValue()], False
+    elif o["t"] == "nested":
+        if any("n" in r for r in o["rest"]):
+            return None  # a list mixing tuples and plain numbers is not a well-formed Array
+        els, skip_nan = _elements(o), False
+    else:
+        els, skip_nan = _elements(o), o["t"] == "flat"
+    return _judge(db, obj, els, skip_nan, wants.get(obj.GetCategory()), dict(object=o))
+
+
+def _oracle_copy(db, op, wants):
+    """an Array obtained with CreateCopy is an object of ITS category holding ITS amounts: it is judged like any
+    other Array, whatever was asked of the source before"""
+    o = op["obj"]
+    if o["t"] == "nested" and any("n" in r for r in o["rest"]):
+        return None
+    try:
+        src = _build_source(op)
+    except Exception:
+        return None
+    for c in op["calls"]:
+        try:
+            src.IsValid() if c == "i" else src.CheckValidity()
+        except Exception:
+            pass
+    try:
+        cp = src.CreateCopy(unit=op["cunit"], category=op["ccat"])
+    except Exception:
+        return None
+    vals = cp.GetValues()
+    nested = len(vals) > 0 and isinstance(list(vals)[0], tuple)
+    show = dict(source=dict(category=op["cat"], unit=op["unit"], object=o, fixed=bool(op.get("fixed")),
+                            calls_before_copy=op["calls"]),
+                copy=dict(unit=op["cunit"], category=op["ccat"]), copy_values=_flatten(vals)[:8])
+    return _judge(db, cp, _flatten(vals), not nested, wants.get(cp.GetCategory()), show)
+
+
+def _want(op, wants):
+    """the limits requested by a registration (None = cannot be told from the history)"""
+    w = dict(min=None if op["min"] is None else U(op["min"]), max=None if op["max"] is None else U(op["max"]),
+             minx=op["minx"], maxx=op["maxx"])
+    if op["frm"]:
+        parent = wants.get(op["frm"])
+        if parent is None:
+            return None
+        if w["min"] is None:
+            w["min"] = parent["min"]
+        if w["max"] is None:
+            w["max"] = parent["max"]
+    return w
+
+
+def _oracle_add(db, op, info, want):
     units = db.GetUnits(info.quantity_type)
     if info.default_unit not in units:
         return dict(clause="default unit is a unit of the quantity type", default_unit=info.default_unit, registration=op)
     if info.valid_units is not None and any(u not in units for u in info.valid_units):
         return dict(clause="valid units are units of the quantity type", valid_units=info.valid_units, registration=op)
-    lims = [x for x in (info.min_value, info.max_value) if x is not None]
+    lim = _Lim(info, want)
+    lims = [x for x in (lim.min_value, lim.max_value) if x is not None]
     if any((not isinstance(x, (int, float))) or not math.isfinite(x) for x in lims):
         return None
-    if not _sat(info, info.default_value):
+    if not _sat(lim, info.default_value):
         return dict(clause="default value satisfies the category's own limits", default_value=info.default_value,
-                    limits=[info.min_value, info.is_min_exclusive, info.max_value, info.is_max_exclusive], registration=op)
+                    limits=[lim.min_value, lim.is_min_exclusive, lim.max_value, lim.is_max_exclusive], registration=op)
     return None
+
+
+def _limits_differ(info, want):
+    if want is None:
+        return False
+    return (info.min_value, info.max_value, bool(info.is_min_exclusive), bool(info.is_max_exclusive)) != \
+        (want["min"], want["max"], bool(want["minx"]), bool(want["maxx"]))
 
 
 def oracle(c, ctx):
@@ -807,6 +1069,8 @@ def oracle(c, ctx):
     ops = c["_t"]["ops"]
     db = _new_db()
     patho = False  # a category named like a quantity type of ANOTHER type makes GetInfo resolve that type: don't care
+    wants = {}     # category -> the limits its registration asked for
+    pending = None
     UnitDatabase.PushSingleton(db)
     try:
         for i, op in enumerate(ops):
@@ -816,8 +1080,13 @@ def oracle(c, ctx):
                     info = db.GetCategoryInfo(op["category"])
                     if op["category"] in db.quantity_types and info.quantity_type != op["category"]:
                         patho = True
-                    f = _oracle_add(db, op, info)
-                    if f is None:
+                    want = _want(op, wants)
+                    if want is None:
+                        wants.pop(op["category"], None)
+                    else:
+                        wants[op["category"]] = want
+                    f = _oracle_add(db, op, info, want)
+                    if f is None and not _limits_differ(info, want):
                         try:
                             s = Scalar(op["category"])
                             if not s.IsValid():
@@ -828,16 +1097,26 @@ def oracle(c, ctx):
                                      error=repr(e), registration=op)
                     if f:
                         f["step"] = i
+                        f["registrations"] = [o for o in ops[:i] if o["k"] == "add"]
                         return f
+                    if pending is None and _limits_differ(info, want):
+                        # kept for the end: an object that is judged wrongly is the better witness
+                        pending = dict(clause="the category is registered with the limits that were requested",
+                                       requested=want, registered=[info.min_value, info.is_min_exclusive, info.max_value,
+                                                                   info.is_max_exclusive],
+                                       registration=op, step=i, registrations=[o for o in ops[:i] if o["k"] == "add"])
                 continue
             if patho:
                 continue
             try:
-                obj = _build(op)
-            except Exception:
-                continue
-            try:
-                f = _oracle_obj(db, op, obj)
+                if op["k"] == "copy":
+                    f = _oracle_copy(db, op, wants)
+                else:
+                    try:
+                        obj = _build(op)
+                    except Exception:
+                        continue
+                    f = _oracle_obj(db, op, obj, wants)
             except Exception as e:
                 f = dict(clause="validation raised unexpectedly", error=repr(e), op=op)
             if f:
@@ -846,14 +1125,41 @@ def oracle(c, ctx):
                 return f
     finally:
         UnitDatabase.PopSingleton()
-    return None
+    return pending
 
 
 def search(ctx):
+    yield from _copy_histories(ctx, "s", 60)
+    yield from _from_histories(ctx, "s", 60)
     yield from _config_histories(ctx, "s", QTYPES_QUICK, 4, True)
     yield from _registration_histories(ctx, "s", 400 if ctx.tier == "quick" else 3000)
     rng = ctx.fresh_rng("C12search")
     yield from _config_histories(ctx, "s2", rng.sample(ctx.types, 20), 5, True)
+
+
+def _object_witness(case, failure, ctx):
+    """a registration that did not keep the requested limits: look for an object the resulting category judges
+    wrongly (just inside / outside the requested and the registered limits, in the default unit)"""
+    ops = case["_t"]["ops"]
+    i = failure["step"]
+    adds = [o for o in ops[:i + 1] if o["k"] == "add"]
+    cat = ops[i]["category"]
+    try:
+        db, _ = _run_history(adds)
+        du = db.GetCategoryInfo(cat).default_unit
+    except Exception:
+        return None
+    probes = [-5.0, 5.0, 0.0]
+    for L in [failure["requested"]["min"], failure["requested"]["max"], failure["registered"][0], failure["registered"][2]]:
+        if L is not None and math.isfinite(L):
+            d = 1e-3 * max(1.0, abs(L))
+            probes += [L - d, L + d, L - 1000 * d, L + 1000 * d]
+    for x in probes:
+        trial = history(adds + [obj_op(cat, du, o_scalar(float(x)), ["i", "c"])])
+        f = oracle(trial, ctx)
+        if f and "registered with the limits" not in f.get("clause", ""):
+            return trial, f
+    return None
 
 
 def shrink(case, failure, ctx):
@@ -861,6 +1167,20 @@ def shrink(case, failure, ctx):
     i = failure.get("step")
     if i is None or i >= len(ops):
         return case, failure
+    if "registered with the limits" in failure.get("clause", ""):
+        w = _object_witness(case, failure, ctx)
+        if w is None:
+            # this registry does not lend itself to objects (empty or shadowing names): take the witness from the
+            # histories made for overriding limits
+            for c in _from_histories(ctx, "w", 40):
+                f = oracle(c, ctx)
+                if f and "registered with the limits" not in f.get("clause", ""):
+                    w = (c, f)
+                    break
+        if w is None:
+            return case, failure
+        case, failure = w
+        ops, i = case["_t"]["ops"], failure["step"]
     adds = [o for o in ops[:i] if o["k"] == "add"]
     small = history(adds + [ops[i]])
     f = oracle(small, ctx)
